@@ -579,6 +579,8 @@ class RequireCommand(ControlCommand):
     loaded_extensions: List[str] = []
 
     def complete_cb(self):
+        if "capabilities" not in self.arguments:
+            raise BadArgument(self.name, ";", ["string", "stringlist"])
         if type(self.arguments["capabilities"]) != list:
             exts = [self.arguments["capabilities"]]
         else:
